@@ -95,7 +95,41 @@ func badText(r *rand.Rand, it item, loaded []item) (Op, bool) {
 	if r.Intn(3) == 0 {
 		name = "bad-" + name
 	}
-	switch k := r.Intn(9); k {
+	switch k := r.Intn(12); k {
+	case 9, 10, 11:
+		// several top-level statements: a NEWER REVISION of a loaded module, acceptable on its own
+		// (it takes the bare name over while the text is being registered), then a statement that
+		// add refuses - the whole text must be withdrawn
+		if len(loaded) == 0 {
+			return Op{}, false
+		}
+		l := loaded[r.Intn(len(loaded))]
+		c := *l.mod
+		c.Revisions = append(append([]string{}, l.mod.Revisions...), "2023-03-03")
+		nb := cloneNode(l.mod.Body)
+		nb.Kids = append(nb.Kids, nd("leaf", "rv23", nd("type", "string")))
+		if r.Intn(4) == 0 && !c.Sub {
+			c.Namespace = c.Namespace + ":moved"
+		}
+		c.Body = nb
+		text := c.Text()
+		if r.Intn(3) == 0 {
+			// a brand-new module in front
+			text = "module zq {\n  namespace \"urn:zq\";\n  prefix zq;\n  leaf q { type string; }\n}\n" + text
+		}
+		fault := ""
+		switch k {
+		case 9:
+			text += l.text
+			fault = "newer-revision-then-duplicate"
+		case 10:
+			text += "container ztrail {\n  leaf q { type string; }\n}\n"
+			fault = "newer-revision-then-non-module"
+		default:
+			text += "module \"zz@1\" {\n  namespace \"urn:zz\";\n  prefix zz;\n}\n"
+			fault = "newer-revision-then-at-name"
+		}
+		return Op{Op: "load", Name: "multi-" + l.name, Text: text, Fault: fault}, true
 	case 0, 1:
 		// an unknown substatement deep inside the last statement
 		n := body
@@ -380,6 +414,13 @@ func buildOps(r *rand.Rand, items []item, maxLen int, origin string) History {
 			if extra(&items[i]) {
 				continue
 			}
+		}
+		if i+1 < len(items) && items[i+1].pre == "" && r.Intn(7) == 0 {
+			// two texts offered as one: several top-level statements, registered all or nothing
+			h.Ops = append(h.Ops, Op{Op: "load", Name: "two-in-one-" + items[i].name, Text: items[i].text + items[i+1].text})
+			loaded = append(loaded, items[i], items[i+1])
+			i += 2
+			continue
 		}
 		h.Ops = append(h.Ops, Op{Op: "load", Name: items[i].name, Text: items[i].text})
 		loaded = append(loaded, items[i])
